@@ -76,6 +76,49 @@ CATALOGUE = [
     # ------------------------------------------------------------------ C07
     m('c07-drop-upper', 'C07', 'break', S, [("    flagu = flagname.upper()\n    flagvalue = np.uint64(0)", "    flagu = flagname\n    flagvalue = np.uint64(0)")], 'C07.CASEFOLD'),
     m('c07-range63', 'C07', 'break', S, [("for bit in range(64)", "for bit in range(63)")], 'C07.SCAN64'),
+    m('c07-keep-shift-scan', 'C07', 'keep', S, [("""    bits = [bit for bit in range(64)
+            if (flagvaluint & (one << np.uint64(bit))) != 0]
+    retval = list()
+    for bit in bits:
+        try:
+            f = [x for x in maskbits[flagu].items() if x[1] == bit]
+        except KeyError:
+            raise KeyError("Unknown flag group {0}!".format(flagu))
+        if f:
+            retval.append(f[0][0])
+""", """    retval = list()
+    for bit in range(64):
+        if (flagvaluint & one) != 0:
+            try:
+                f = [x for x in maskbits[flagu].items() if x[1] == bit]
+            except KeyError:
+                raise KeyError("Unknown flag group {0}!".format(flagu))
+            if f:
+                retval.append(f[0][0])
+        flagvaluint >>= one
+""")]),
+    m('c07-shift-scan-continue', 'C07', 'break', S, [("""    bits = [bit for bit in range(64)
+            if (flagvaluint & (one << np.uint64(bit))) != 0]
+    retval = list()
+    for bit in bits:
+        try:
+            f = [x for x in maskbits[flagu].items() if x[1] == bit]
+        except KeyError:
+            raise KeyError("Unknown flag group {0}!".format(flagu))
+        if f:
+            retval.append(f[0][0])
+""", """    retval = list()
+    for bit in range(64):
+        if (flagvaluint & one) != 0:
+            try:
+                f = [x for x in maskbits[flagu].items() if x[1] == bit]
+            except KeyError:
+                raise KeyError("Unknown flag group {0}!".format(flagu))
+            if not f:
+                continue
+            retval.append(f[0][0])
+        flagvaluint >>= one
+""")], 'C07.SCAN64'),
     m('c07-continue-not-raise', 'C07', 'break', S, [("            else:\n                raise KeyError(\"Unknown bit label {0} for flag group {1}!\".format(bit, flagu))", "            else:\n                continue")], 'C07.GUARDED'),
     m('c07-exist-unguarded', 'C07', 'break', S, [("    if flagname.upper() in maskbits:\n        f = True\n        which", "    if True:\n        f = True\n        which")], 'C07.GUARDED'),
     m('c07-python-int-shift', 'C07', 'break', S, [("if (flagvaluint & (one << np.uint64(bit))) != 0]", "if (flagvaluint & (one << bit)) != 0]")], 'C07.U64'),
